@@ -245,7 +245,7 @@ func snapshot(conns []*fakeConn, mu *sync.Mutex) []int32 {
 }
 
 func waitClosed(conns []*fakeConn, mu *sync.Mutex, i int) {
-	dl := time.Now().Add(10 * time.Second)
+	dl := time.Now().Add(3 * time.Second)
 	for time.Now().Before(dl) {
 		mu.Lock()
 		c := conns[i]
